@@ -82,8 +82,12 @@
 // GenConfig.EffectBias shifts weight to state-changing blocks (C29);
 // GenConfig.Disable removes kinds; GenConfig.AsInit biases towards RETURN.
 //
-// # Determinism
+// # Determinism and distribution
 //
 // All randomness comes from the *rapid.T passed in; nothing depends on map order
-// or time. KindCounts returns a map: iterate it through SortedKinds.
+// or time. Choices among alternatives use Uniform(t, label, n), which is built from
+// unbiased Bool draws: rapid's own IntRange/SampledFrom are deliberately skewed
+// towards small values (about a third of IntRange(0,99) draws are < 4), which is
+// the wrong distribution for picking a fork, an opcode or a block kind. Harnesses
+// should use Uniform for their own percentage/alternative draws too. KindCounts returns a map: iterate it through SortedKinds.
 package evmprog
